@@ -672,3 +672,14 @@ func SendWire(out *Out, l *Loop, label, mode string, w *Wire, signer string, pay
 	return seen
 }
 
+
+// FlipHex replaces the hex digit at position i by another one.
+func FlipHex(s string, i int) string {
+	b := []byte(s)
+	if b[i] == '0' {
+		b[i] = '1'
+	} else {
+		b[i] = '0'
+	}
+	return string(b)
+}
